@@ -131,7 +131,7 @@ def run(ctx):
         n_same += same
         ck.ob("C16-R1", "-", "B:KEY=:same-intermediate-value:%d" % (l1.index(a) + 1), same, detail=("`%s`: " % nm) + ("equal" if same else "; ".join(hircanon.diff(ca, cb))[:400]))
     ck.ob("C16-R1", "-", "B:KEY=:same-number-of-intermediate-values", len(l1) == len(l2), detail="%d / %d" % (len(l1), len(l2)))
-    ck.floor("C16-R1", "B:KEY=-intermediate-values", len(l1), 10)
+    ck.floor("C16-R1", "B:KEY=-intermediate-values", len(l1), 5)
     # interleaved non-let statements (the per-character counting loop) – compare them too
     # classification term: condition of the `if` in f1 == init of is_keyboard in f2
     if1 = [st["e"] for st in r1 if st["e"].get("k") == "If"]
@@ -270,7 +270,7 @@ def run(ctx):
                     ok = found == ["Some"] and excl == [False] and (skip == [False] or (skip == [True] and isk == [True]))
                     ck.ob("C16-R4", fd.path, "--dev-file:pushed-iff-found∧¬(only-if-keyboard∧¬is_keyboard)∧¬excluded", ok, site=e.span,
                           detail="found %s excluded %s only-if-keyboard %s is_keyboard %s" % (found, excl, skip, isk))
-    ck.floor("C16-R4", "dev-file-push-paths", n, 2)
+    ck.floor("C16-R4", "dev-file-push-paths", n, 1)
     hm = ctx.hir("remapping_loop::do_remapping_loop_multiple_devices")
     ok = len(list(hirq.calls(hm["body"], path="remapping_loop::filter_devices_verbose"))) == 1
     ck.ob("C16-R4", "remapping_loop::do_remapping_loop_multiple_devices", "--dev-file-arguments-pass-through-filter_devices_verbose", ok)
